@@ -1008,14 +1008,10 @@ impl Scenario for TxHistory {
                     if any_filled {
                         ctx.nontrivial = true;
                     }
-                    // O5: the volatile cache must not survive a restart
-                    let rs = restored.verif_hash_cache();
-                    for (k, s) in rs.iter().enumerate() {
-                        if s.is_some() {
-                            if ctx.violate("stale", format!("restart-kept-slot:{} via {}", SLOT_NAMES[k], kind), format!("memo slot {} is filled on an object restored through {}", SLOT_NAMES[k], kind)) {
-                                return;
-                            }
-                        }
+                    // O5: whatever a restored object carries in its memo must be right for its contents (checked by O2 below
+                    // like for every other object); whether it carries anything is the implementation's business
+                    if restored.verif_hash_cache().iter().any(|x| x.is_some()) {
+                        ctx.probe("restored_object_carries_memo");
                     }
                     objs[o].tx = restored;
                     touched_cache_ok = true;
@@ -1057,8 +1053,10 @@ impl Scenario for TxHistory {
                 let slots = objs[k].tx.verif_hash_cache();
                 if k != o {
                     // O4 isolation: nothing about an object that was not addressed may change
-                    if bytes != objs[k].snap_bytes || slots != objs[k].snap_slots {
-                        if ctx.violate("isolation", format!("isolation:{} changed another object", op), format!("event `{}` on object {} changed object {} (bytes changed: {}, slots changed: {})", op, o, k, bytes != objs[k].snap_bytes, slots != objs[k].snap_slots)) {
+                    // (memo slots of another object may change - e.g. a shared cache that is maintained correctly - as long
+                    // as they stay right for that object's contents, which O2 checks below)
+                    if bytes != objs[k].snap_bytes {
+                        if ctx.violate("isolation", format!("isolation:{} changed another object", op), format!("event `{}` on object {} changed the serialisation of object {}", op, o, k)) {
                             return;
                         }
                     }
@@ -1078,9 +1076,8 @@ impl Scenario for TxHistory {
                         }
                     }
                     if op == "read" && slots != objs[k].snap_slots {
-                        if ctx.violate("isolation", format!("readonly:{} changed memo slots", jstr(ev, "kind")), format!("read-only call `{}` changed the memo slots", jstr(ev, "kind"))) {
-                            return;
-                        }
+                        // a read-only call may warm the memo (O2 judges what it put there)
+                        ctx.probe("read_only_call_touched_memo");
                     }
                 }
                 // O2 slot invariant: every filled slot equals what a history-free object computes
